@@ -52,3 +52,10 @@ func VerifPlanStages(commits []*object.Commit, hibernationDistance int) (base, g
 	hib = conv(plan)
 	return
 }
+
+// VerifActionCodes returns the numeric codes of the plan actions in the order
+// commit, fork, merge, emerge, delete, hibernate, boot.
+func VerifActionCodes() [7]int {
+	return [7]int{runActionCommit, runActionFork, runActionMerge, runActionEmerge,
+		runActionDelete, runActionHibernate, runActionBoot}
+}
